@@ -41,7 +41,7 @@ def Op.ofSymbol (s : Bytes) : Option Op :=
 
 /-- runtime type descriptor (tyseed.rs `Ty`); field / variant names are UTF-8 bytes -/
 inductive Ty where
-  | bool | i64 | u64 | i32 | u32 | f64 | f32 | str | any | ign
+  | bool | i64 | u64 | i32 | u32 | i16 | u16 | i8 | u8 | f64 | f32 | str | any | ign
   | opt (t : Ty) | seq (t : Ty) | map (t : Ty) | prop (t : Ty)
   | st (fs : List (Bytes × Ty))
   | en (vs : List Bytes)
@@ -217,12 +217,24 @@ def leafConv : Ty → Bytes → Option (R Val)
   | .u32, s => match Scalar.toU64 s with
     | .ok v => some (if v < 2^32 then .ok (.uint v) else .error .type)
     | .error _ => none
+  | .i16, s => match Scalar.toI64 s with
+    | .ok v => some (if -(2^15 : Int) ≤ v ∧ v < 2^15 then .ok (.int v) else .error .type)
+    | .error _ => none
+  | .u16, s => match Scalar.toU64 s with
+    | .ok v => some (if v < 2^16 then .ok (.uint v) else .error .type)
+    | .error _ => none
+  | .i8, s => match Scalar.toI64 s with
+    | .ok v => some (if -(2^7 : Int) ≤ v ∧ v < 2^7 then .ok (.int v) else .error .type)
+    | .error _ => none
+  | .u8, s => match Scalar.toU64 s with
+    | .ok v => some (if v < 2^8 then .ok (.uint v) else .error .type)
+    | .error _ => none
   | .f64, s => match Scalar.toF64 s with | .ok v => some (.ok (.f64 v)) | .error _ => none
   | .f32, s => match Scalar.toF64 s with | .ok v => some (.ok (.f32 (f64ToF32 v))) | .error _ => none
   | _, _ => none
 
 def Ty.isNumLeaf : Ty → Bool
-  | .bool | .i64 | .u64 | .i32 | .u32 | .f64 | .f32 => true
+  | .bool | .i64 | .u64 | .i32 | .u32 | .i16 | .u16 | .i8 | .u8 | .f64 | .f32 => true
   | _ => false
 
 /-! ### struct bookkeeping (tyseed.rs `StructVisitor`) -/
@@ -564,7 +576,7 @@ def tde (enc : Enc) (toks : List TTok) : Nat → Ty → VK → R Val
   | 0, _, _ => .error .panic
   | f + 1, ty, vk =>
     match ty with
-    | .bool | .i64 | .u64 | .i32 | .u32 | .f64 | .f32 => tLeaf enc toks ty vk
+    | .bool | .i64 | .u64 | .i32 | .u32 | .i16 | .u16 | .i8 | .u8 | .f64 | .f32 => tLeaf enc toks ty vk
     | .str => (tStr enc toks vk).map Val.str
     | .any => tAny enc toks (toks.length + 1) vk
     | .ign => .ok .ign
@@ -799,7 +811,7 @@ def sde (enc : Enc) : Nat → Ty → RTok → Op → List RTok → R (Val × Lis
   | 0, _, _, _, _ => .error .panic
   | f + 1, ty, tok, op, toks =>
     match ty with
-    | .bool | .i64 | .u64 | .i32 | .u32 | .f64 | .f32 => (sLeaf ty tok).map (fun v => (v, toks))
+    | .bool | .i64 | .u64 | .i32 | .u32 | .i16 | .u16 | .i8 | .u8 | .f64 | .f32 => (sLeaf ty tok).map (fun v => (v, toks))
     | .str => (sStr enc tok).map (fun s => (.str s, toks))
     | .any => sAny enc (toks.length + 2) tok toks
     | .ign =>
